@@ -39,8 +39,16 @@ Print Assumptions C01_visitors_only_add.
    `Other`, plus displays, dict displays, keywords, with-items) visits ALL of its children, in order *)
 Theorem C01_generic_visit_descends_everywhere :
   forall mexists modulename kind binds children,
-    visit mexists modulename (Other kind binds children) = mapM_ (visit mexists modulename) children.
-Proof. exact visit_other. Qed.
+    visit mexists modulename (Other kind binds children) =
+    match binds with
+    | [nm] => if String.eqb kind "ExceptHandler"
+              then (* the handler's name is defined around the visit of ALL the children (fix 5c7d323) *)
+                   mod_ctx (fun c => ctx_add c (mkSym nm KName) false) ;;; mapM_ (visit mexists modulename) children ;;;
+                   mod_ctx (fun c => ctx_remove c nm)
+              else mapM_ (visit mexists modulename) children
+    | _ => mapM_ (visit mexists modulename) children
+    end.
+Proof. exact visit_other_gen. Qed.
 
 Example C01_no_finding_position_all_reported :
   fst (run sample_body) = Ok tt
